@@ -1,150 +1,307 @@
 """C16 - roll-up and paint-on SCC text is conserved and ordered.
 
-Inputs: roll-up (depth 2, 3, 4) and paint-on programs: 1-8 rows of basic, special and extended characters drawn from
-every code of the three tables (extended ones after a stand-in, doubled in doubled mode; 1-32 characters,
-no leading/trailing blank), each row `[CR] PAC [TO] text` (roll-up) or `[RDC] PAC [TO] text` (paint-on; rows without
-their own RDC accumulate in one buffer), row addresses fixed or varying, codes doubled (PAC+TO doubled as a unit,
-special characters sent twice) or single, drop / non-drop timecode, inter-line gaps 0..300 frames, one or several
-rows per line.
-Observation (public API): SCCReader().read(stream) -> captions (start, end, text with breaks, nodes, layout).
-Correspondence: the full extracted decoder model (request 600): times within 2^-10 us, nodes and layout exactly.
-Property oracle: Coq ok_c16 (coq/spec/SpecScc16.v) on the implementation's (start, end, text) and the transmitted rows.
+Inputs: programs of 1-8 rows in roll-up (depth 2, 3, 4) and paint-on mode, with, inside ONE program: the mode command
+re-sent in front of a row (`RU CR PAC text` and `CR RU PAC text`, the shape of broadcast files), depth changes, switches
+roll-up <-> paint-on, rows with or without their own flush (carriage return / resume-direct-captioning; rows without one
+accumulate in the displayed buffer on different screen rows), rows with or without a preamble address code, preambles of
+every style / indent / tab offset, rows continued on the next timecode line, several rows per line, Erase-Displayed-Memory
+in the middle or at the end, control codes doubled / single / mixed per code; row text of 1-32 cells from EVERY code of
+the basic / special / extended tables (extended after a stand-in) incl. leading blanks, double blanks, the transparent
+space, trailing blanks, characters erased by a backspace; drop / non-drop timecode; inter-line gaps 0..300 frames.
+NOT generated (counted nowhere because never produced): mid-row codes inside a row (their blank cell makes the expected
+text ambiguous; they are covered by C05), offsets, simulate_roll_up.
+Observation (public API): SCCReader().read(stream) -> captions (start, end, text with breaks).
+Property oracle: Coq ok_c16_screens (coq/spec/SpecScc16.v) on the implementation's (start, end, text): every character
+once and in order, rows kept together, ordered, start < end, each screen ends where the next begins, and captions share a
+span only inside one displayed buffer (the number of distinct screens equals the number of buffers the program displays).
+Correspondence (at the level the property fixes): (start, end, text) of the implementation vs the full extracted decoder
+model (request 600, 2^-10 us); the event-level timing model rp_read (request 1602) on the program's flush events vs the
+implementation's screens.
 """
 import impl
 import sccgen as g
 import sccobs
-from wire import Ok, Err, oracle_batch, oracle1
+from wire import Ok, Err, oracle_batch, oracle1, r_result, r_q
 
 TABLES = ("GenScc.v",)
-LETTERS = "abcdefghijklmnopqrstuvwxyzABCDEFGHIJKLMNOPQRSTUVWXYZ0123456789.,!?'-:;()$%&/+=<>@[]"
-SPECIALS = {"®": 0, "°": 1, "½": 2, "¿": 3, "™": 4, "¢": 5, "£": 6, "♪": 7, "à": 8, "è": 10, "â": 11, "ê": 12,
-            "î": 13, "ô": 14, "û": 15}
-BASIC_EXTRA = "áéíóúçÑñ÷"
+RU = {"roll2": g.RU2, "roll3": g.RU3, "roll4": g.RU4}
 
 
-def rand_row(rng):
-    """1-32 displayed characters from EVERY code of the basic / special / extended tables (extended characters are
-    sent after a stand-in); -> (text shown on a 608 screen, tokens)"""
-    n = rng.choice([1, 2, 3, 5, 8, 13, 20, 31, 32, rng.randint(1, 32)])
-    toks = g.rand_tokens(rng, n, p_special=0.07, p_ext=0.09)
-    return g.tokens_text(toks), toks
-
-
-def row_words(toks, doubled):
-    return g.tokens_words(toks, doubled)
-
-
-def pac_unit(row, col, doubled, rng):
-    unit = [g.pac(row, col - col % 4)]
-    if col % 4:
-        unit.append(g.tab(col % 4))
-    return unit * 2 if doubled else unit
+def tc_fields(frame, drop):
+    s = frame // 30
+    return [s // 3600, (s // 60) % 60, s % 60, drop, frame % 30]
 
 
 def gen_program(rng):
-    mode = rng.choice(["roll2", "roll3", "roll4", "paint", "paint"])
-    doubled = rng.random() < 0.6
-    drop = rng.random() < 0.5
     nrows = rng.randint(1, 8)
-    rich = [rand_row(rng) for _ in range(nrows)]
-    rows = [t for t, _ in rich]
-    lines = []
+    doubled = rng.choice([True, True, False, "mixed"])
+    dd = (lambda: rng.random() < 0.5) if doubled == "mixed" else (lambda: bool(doubled))
+    drop = rng.random() < 0.5
+    mode = rng.choice(["roll2", "roll3", "roll4", "paint", "paint"])
     frame = rng.choice([0, 30, 30 * 3600, 30 * 7261 + 7])
-    addr_style = rng.choice(["fixed", "fixed", "indent", "rows"])
-    base_row = rng.choice([15, 15, 14, 1, 7])
+    lines = []          # (frame, words)
     cur = []
-    prev_row = 0
-    for i, (text, toks) in enumerate(rich):
-        if addr_style == "fixed":
-            r, c = base_row, 0
-        elif addr_style == "indent":
-            r, c = base_row, rng.choice([0, 1, 2, 3, 4, 8, 11, 16, 28])
+    rows = []           # expected row texts (trailing blanks are not shown)
+    buf_text = []       # per displayed buffer: does it show a visible character (a buffer of blanks yields no caption)
+    buf_rows = []       # screen rows used in the displayed buffer
+    events = []         # flush events [kind, (line index, k)] for the event-level model; None if not expressible
+    expressible = True
+    t0 = None
+    nonempty = False    # the active buffer holds text
+    shapes = {}
+    last_pos = None
+
+    def pos_now():
+        return (len(lines), len(cur))
+
+    def count(k):
+        shapes[k] = shapes.get(k, 0) + 1
+
+    for i in range(nrows):
+        toks = g.rand_tokens(rng, rng.choice([1, 2, 3, 5, 8, 13, 20, 31, 32, rng.randint(1, 32)]), p_special=0.07,
+                             p_ext=0.09, p_bs=0.04, blank_ends=0.35, sp9=True)
+        text = g.tokens_text(toks).rstrip()
+        # ---- mode command in front of the row?
+        cmd = None
+        if i == 0:
+            cmd = mode
         else:
-            r, c = rng.randint(1, 15), rng.choice([0, 0, 4, 6])
-        own_rdc = i == 0 or rng.random() < 0.7
-        if mode == "paint" and not own_rdc and r == prev_row:
-            # rows that accumulate in one paint-on buffer sit on different screen rows (a second preamble for the
-            # same row would, on a 608 screen, write over the first text)
-            r = r % 15 + 1
-        prev_row = r
+            r = rng.random()
+            if r < 0.25:
+                cmd = mode                                             # re-sent
+                count("mode_resent")
+            elif r < 0.35 and mode.startswith("roll"):
+                mode = rng.choice([m for m in RU if m != mode])        # depth change
+                cmd = mode
+                count("depth_change")
+            elif r < 0.47:
+                mode = "paint" if mode.startswith("roll") else rng.choice(list(RU))
+                cmd = mode
+                count("mode_switch")
+        is_roll = mode.startswith("roll")
+        own_flush = True
+        if cmd is None and rng.random() < (0.1 if is_roll else 0.3):
+            own_flush = False                                          # accumulates in the displayed buffer
         ws = []
-        if mode.startswith("roll"):
-            if i == 0:
-                ws += g.dbl([{"roll2": g.RU2, "roll3": g.RU3, "roll4": g.RU4}[mode]], doubled)
-            ws += g.dbl([g.CR], doubled)
+        cr = is_roll and own_flush
+        cr_first = cr and cmd is not None and rng.random() < 0.3
+        if cr_first:
+            count("cr_before_mode_command")
+        # ---- the words, recording flush events
+        def emit_cmd():
+            nonlocal nonempty, t0, expressible
+            w = RU[mode] if is_roll else g.RDC
+            p = (pos_now()[0], pos_now()[1] + len(ws))
+            if t0 is None:
+                t0 = p
+            elif nonempty:
+                # the active buffer is stored at its start time and the clock moves to this instant; leaving roll-up mode
+                # goes through _roll_up (forced end time)
+                left_roll = prev_mode.startswith("roll") and not is_roll
+                events.append([0 if left_roll else 1, p])
+                nonempty = False
+            elif events or t0 is not None:
+                # a mode command on an empty buffer only moves the clock: the event model has no such event
+                if p != t0:
+                    expressible = False
+            ws.extend(g.dbl([w], dd()))
+
+        def emit_cr():
+            nonlocal nonempty
+            p = (pos_now()[0], pos_now()[1] + len(ws))
+            if nonempty:
+                events.append([0, p])
+                nonempty = False
+            ws.extend(g.dbl([g.CR], dd()))
+
+        prev_mode = gen_program.prev_mode if i else mode
+        if cr_first:
+            emit_cr()
+        if cmd is not None:
+            emit_cmd()
+        if cr and not cr_first:
+            emit_cr()
+        gen_program.prev_mode = mode
+        flushed = cmd is not None or cr
+        if flushed:
+            buf_text.append(False)                                     # a new displayed buffer starts
+            buf_rows = []
+        # ---- preamble address code
+        need_pac = not flushed or last_pos is None
+        if need_pac or rng.random() < 0.9:
+            free = [r for r in range(1, 16) if r not in buf_rows]
+            row = rng.choice(free) if (not flushed or rng.random() < 0.4) else (last_pos[0] if last_pos else 15)
+            if row in buf_rows:
+                row = rng.choice(free)
+            room = 32 - len(g.tokens_text(toks))
+            col = rng.choice([c for c in (0, 0, 0, 1, 2, 3, 4, 6, 8, 11, 16, 28) if c <= room])
+            style = rng.choice([0, 0, 1, 14, 15, rng.randint(2, 13)]) if col < 4 else rng.choice([0, 0, 1])
+            ind = col - col % 4
+            if ind:
+                unit = [g.pac(row, ind, underline=bool(style & 1))]
+            elif style >= 14:
+                unit = [g.pac(row, italics=True, underline=bool(style & 1))]
+            else:
+                unit = [g.pac(row, color=style // 2, underline=bool(style & 1))]
+            if col % 4:
+                unit.append(g.tab(col % 4))
+            ws += unit * 2 if dd() else unit
+            last_pos = (row, col)
+            buf_rows.append(row)
+            if style or ind:
+                count("styled_or_indented_preamble")
         else:
-            if own_rdc:
-                ws += g.dbl([g.RDC], doubled)
-        ws += pac_unit(r, c, doubled, rng) + row_words(toks, doubled)
-        cur += ws
-        if rng.random() < 0.75 or i == len(rows) - 1:
+            count("row_without_preamble")
+            buf_rows.append(last_pos[0])
+        tw = g.tokens_words(toks, dd)
+        if rng.random() < 0.12 and len(tw) > 2:
+            cut = rng.randint(1, len(tw) - 1)                           # the row continues on the next timecode line
+            cur += ws + tw[:cut]
+            lines.append((frame, cur))
+            frame += len(cur) + rng.choice([0, 1, 2, 5])
+            cur = tw[cut:]
+            count("row_split_over_lines")
+        else:
+            cur += ws + tw
+        nonempty = True
+        rows.append(text)
+        buf_text[-1] = buf_text[-1] or bool(text)
+        if not text:
+            # a row of blanks / erased characters only: its buffer is flushed like any other but yields no caption, which
+            # the event-level model cannot express
+            expressible = False
+            count("row_without_visible_character")
+        if rng.random() < 0.06:
+            cur += g.dbl([g.EDM], dd())                                 # nothing is displayed by pop-on: no effect
+            count("edm_inside")
+        if rng.random() < 0.75 or i == nrows - 1:
+            if i == nrows - 1 and rng.random() < 0.3:
+                cur += g.dbl([g.EDM], dd())
+                count("edm_at_end")
             lines.append((frame, cur))
             frame += len(cur) + rng.choice([0, 1, 2, 5, 6, 30, 300])
             cur = []
-    return {"mode": mode, "doubled": doubled, "drop": drop, "rows": rows,
-            "stream": g.doc([(g.timecode(f, drop), ws) for f, ws in lines])}
+    # end of stream: a roll-up buffer is rolled up at the instant after the last word; a paint-on buffer stays pending
+    pending = not mode.startswith("roll")
+    if mode.startswith("roll"):
+        events.append([0, (len(lines) - 1, len(lines[-1][1]))])
+    stream = g.doc([(g.timecode(f, drop), ws) for f, ws in lines])
+
+    def wire_pos(p):
+        return [tc_fields(lines[p[0]][0], drop), p[1]]
+    ev = None
+    if expressible and t0 is not None:
+        ev = [wire_pos(t0), [[k] + wire_pos(p) for k, p in events], pending]
+    buffers = sum(buf_text)
+    return {"doubled": str(doubled), "drop": drop, "rows": rows, "buffers": buffers, "stream": stream, "events": ev,
+            "shapes": shapes, "final_mode": mode}
 
 
 def obs3(o):
     if isinstance(o, Ok):
-        return Ok([[c[0], c[1], sccobs.cap_text(c)] for c in o.v])
+        # blanks at the end of a line are not displayable characters (the reader strips most of them; one survives in
+        # front of a closing italics node): compared after right-stripping every line
+        return Ok([[c[0], c[1], "\n".join(l.rstrip() for l in sccobs.cap_text(c).split("\n"))] for c in o.v])
     if isinstance(o, tuple):
         return Err(4)
     return o
 
 
+def close3(a, b):
+    if isinstance(a, Err) or isinstance(b, Err):
+        return a == b
+    return len(a.v) == len(b.v) and all(abs(x[0] - y[0]) <= sccobs.TOL_T and abs(x[1] - y[1]) <= sccobs.TOL_T
+                                        and x[2] == y[2] for x, y in zip(a.v, b.v))
+
+
+def screens(spans):
+    out = []
+    for s in spans:
+        if not out or out[-1] != s:
+            out.append(s)
+    return out
+
+
 def run(ctx):
     rng = ctx.rng
-    res = {"evaluations": 0, "nontrivial": set(), "violations": [], "disagreements": [], "streams": 1, "notes": []}
-    dist = {"mode": {}, "rows": {}, "doubled": 0, "drop": 0, "captions_out": {}, "special_chars": 0}
+    res = {"evaluations": 0, "nontrivial": set(), "violations": [], "disagreements": [], "streams": 2, "notes": []}
+    dist = {"final_mode": {}, "rows": {}, "doubling": {}, "drop": 0, "captions_out": {}, "shapes": {},
+            "event_model_compared": 0, "event_model_not_expressible": 0, "special_chars": 0, "extended_chars": 0,
+            "rows_with_leading_or_double_blank": 0}
     res["distribution"] = dist
     progs = [gen_program(rng) for _ in range(ctx.n(1200, 40000))]
     obs = [sccobs.observe(p["stream"]) for p in progs]
     models = sccobs.model_batch([(p["stream"], 0) for p in progs])
-    oks = oracle_batch([(1600, [p["rows"], obs3(o)]) for p, o in zip(progs, obs)])
-    for p, o, m, ok in zip(progs, obs, models, oks):
+    oks = oracle_batch([(1601, [p["rows"], p["buffers"], obs3(o)]) for p, o in zip(progs, obs)])
+    evreq = [(i, (1602, p["events"])) for i, p in enumerate(progs) if p["events"] is not None]
+    evans = dict(zip([i for i, _ in evreq], oracle_batch([r for _, r in evreq])))
+    for i, (p, o, m, ok) in enumerate(zip(progs, obs, models, oks)):
         res["evaluations"] += 1
-        dist["mode"][p["mode"]] = dist["mode"].get(p["mode"], 0) + 1
+        dist["final_mode"][p["final_mode"]] = dist["final_mode"].get(p["final_mode"], 0) + 1
         dist["rows"][len(p["rows"])] = dist["rows"].get(len(p["rows"]), 0) + 1
-        dist["doubled"] += p["doubled"]
+        dist["doubling"][p["doubled"]] = dist["doubling"].get(p["doubled"], 0) + 1
         dist["drop"] += p["drop"]
+        for k, v in p["shapes"].items():
+            dist["shapes"][k] = dist["shapes"].get(k, 0) + v
         dist["special_chars"] += sum(1 for r in p["rows"] for ch in r if ch in g.SPECIAL_608 and ch != " ")
-        dist["extended_chars"] = dist.get("extended_chars", 0) + sum(1 for r in p["rows"] for ch in r if ch in g.EXT1_608 or ch in g.EXT2_608)
+        dist["extended_chars"] += sum(1 for r in p["rows"] for ch in r if ch in g.EXT1_608 or ch in g.EXT2_608)
+        dist["rows_with_leading_or_double_blank"] += sum(1 for r in p["rows"] if r.startswith(" ") or "  " in r)
         n_out = len(o.v) if isinstance(o, Ok) else -1
         dist["captions_out"][n_out] = dist["captions_out"].get(n_out, 0) + 1
-        desc = {k: p[k] for k in ("mode", "doubled", "drop", "rows")}
+        desc = {k: p[k] for k in ("doubled", "drop", "rows", "buffers")}
         if len(p["rows"]) >= 2:
             res["nontrivial"].add(p["stream"])
+        o3 = obs3(o)
         if ok[0] != 1:
-            which = "text" if ok[1] != 1 else "timing-chain"
-            res["violations"].append({
-                "kind": "not-conserved" if ok[1] != 1 else "chain-broken", "replay": "stream",
-                "what": ("the returned caption texts are not the transmitted rows (every character once, in order, "
-                         "rows kept together)" if ok[1] != 1 else
-                         "captions are not ordered with start < end and each ending where the next begins"),
-                "input": desc, "stream": p["stream"], "rows": p["rows"], "clause": which,
-                "impl_obs": [[str(c[0]), str(c[1]), sccobs.cap_text(c)] for c in o.v] if isinstance(o, Ok) else repr(o)})
+            kind = "not-conserved" if ok[1] != 1 else ("chain-broken" if ok[2] != 1 else "screens-merged-or-split")
+            what = {"not-conserved": "the returned caption texts are not the transmitted rows (every character once, in "
+                                     "order, rows kept together)",
+                    "chain-broken": "captions are not ordered with start < end and each ending where the next begins",
+                    "screens-merged-or-split": f"{p['buffers']} buffers were displayed one after the other but the "
+                                               f"captions do not form that many distinct (start, end) screens"}[kind]
+            res["violations"].append({"kind": kind, "replay": "stream", "what": what, "input": desc,
+                                      "stream": p["stream"], "rows": p["rows"], "buffers": p["buffers"],
+                                      "impl_obs": [[str(c[0]), str(c[1]), c[2]] for c in o3.v] if isinstance(o3, Ok)
+                                      else repr(o)})
             continue
-        d = sccobs.same(o, m)
-        if d:
-            res["disagreements"].append({"input": desc, "stream": p["stream"], "difference": d})
-    res["rule"] = ("roll-up 2/3/4 and paint-on programs of 1-8 rows (1-32 basic / special characters), row addresses "
-                   "fixed / varying indent with tab offsets / varying rows, doubled or single codes, drop / non-drop, "
-                   "gaps {0,1,2,5,6,30,300} frames, start timecodes {0, 1 s, 1 h, 2:01:01:07}. Non-trivial: at least "
-                   "two rows. Distinct streams counted.")
-    res["samples"] = [{"mode": p["mode"], "rows": p["rows"], "stream": p["stream"]} for p in progs[:2]]
+        if not close3(o3, obs3(m)):
+            res["disagreements"].append({"which": "full decoder model (start, end, text)", "input": desc,
+                                         "stream": p["stream"], "impl": repr(o3)[:300], "model": repr(obs3(m))[:300]})
+        if i in evans:
+            dist["event_model_compared"] += 1
+            em = r_result(evans[i], lambda l: [[r_q(a), r_q(b)] for a, b in l])
+            osc = Ok(screens([[c[0], c[1]] for c in o3.v])) if isinstance(o3, Ok) else o3
+            same = (isinstance(em, Ok) and isinstance(osc, Ok) and len(em.v) == len(osc.v) and
+                    all(abs(x[0] - y[0]) <= sccobs.TOL_T and abs(x[1] - y[1]) <= sccobs.TOL_T for x, y in zip(em.v, osc.v))) \
+                or (isinstance(em, Err) and em == osc)
+            if not same:
+                res["disagreements"].append({"which": "event-level timing model rp_read", "input": desc,
+                                             "stream": p["stream"], "events": p["events"], "impl": repr(osc)[:300],
+                                             "model": repr(em)[:300]})
+        else:
+            dist["event_model_not_expressible"] += 1
+    res["rule"] = ("programs of 1-8 rows mixing roll-up 2/3/4 and paint-on: mode command re-sent (before or after the "
+                   "carriage return), depth changes, mode switches, rows with / without own flush, with / without "
+                   "preamble, all preamble styles, rows split over lines, EDM inside / at the end, doubling true / false / "
+                   "mixed, 1-32 cells from every table code incl. leading / double / trailing blanks, transparent space, "
+                   "erased characters; gaps {0,1,2,5,6,30,300}; start timecodes {0, 1 s, 1 h, 2:01:01:07}. Non-trivial: at "
+                   "least two rows. Distinct streams counted.")
+    res["samples"] = [{"rows": p["rows"], "buffers": p["buffers"], "stream": p["stream"]} for p in progs[:2]]
     res["clauses"] = {
-        "theorem": ["roll-up / paint-on alphabet: the non-blank characters handed to the buffer are conserved, in order, "
-                    "through buffer, italics passes, caption building and the caption list (all word lists)",
-                    "italics passes and caption building keep every text node in order (all instruction lists)",
-                    "timing chain: after a forced end-time correction the last batch ends at the next start"],
-        "correspondence_only": ["blank characters at line ends (stripped by the reader)",
-                                "decoding of code words to characters is by the generated tables (table theorems in C05)",
-                                "exact instants (full decoder model vs implementation within 2^-10 us)"]}
+        "theorem": ["conservation on the whole decoder model for the roll-up / paint-on alphabet (non-blank characters "
+                    "handed to the buffer = non-blank characters of the returned captions, in order; relative to the "
+                    "decoder's own tables and doubling rule, which C05's table theorems and doubling_unconditional tie to CEA-608)",
+                    "event-level flush model rp_read: spans = chain through the flush instants; start < end and strictly "
+                    "increasing starts for increasing instants (not linked to read by a theorem: linked by execution, "
+                    "request 1602 vs the implementation's screens)",
+                    "caption list keeps order, starts and nodes (definitional support lemma)"],
+        "correspondence_only": ["blank characters, exact line structure (rows kept together), start < end / order / chain "
+                                "of what read returns: oracle on the implementation + decoder model at (start, end, text)",
+                                "which stream positions are flush events: generator vs implementation through rp_read"]}
     return res
 
 
 def replay(ctx, rec):
     o = sccobs.observe(rec["stream"])
-    ok = oracle1(1600, [rec["rows"], obs3(o)])
+    ok = oracle1(1601, [rec["rows"], rec["buffers"], obs3(o)])
     return ok[0] != 1, repr(obs3(o))[:600]
